@@ -146,7 +146,10 @@ def build(repo=None):
 
     # ================================================================== C06: confinement of every write on the check paths
     path_fns = []
+    from ..source import struct_dtype_helper
     for rel, q in CHECK_PATH:
+        if q == "_dtype_is_numpy_struct_array":
+            q = struct_dtype_helper(get(rel))  # by role: the helper may have been renamed
         m = get(rel)
         f = m.func(q)
         path_fns.append((rel, q, f))
